@@ -147,4 +147,128 @@ example : ((mapPipeline exTree { dropLevel := some 1 } (exVoteP 2) [7, 3, 9] [0,
       (·.map (·.head?)) = some [some (.str 7), some (.str 3), some (.str 9)] := by
   decide +kernel
 
+/-! ### unconditional forms: the run succeeds (C01) and its output serialises -/
+
+/-- plain run (no `drop_level`, no `flatten`): on a well-formed tree the
+mapping cannot fail (`C01.no_error_plain`), and its output round-trips through
+HDF5 and is written to CSV with one row per query cell in query order -/
+theorem pipeline_serialised_plain {κ} (t0 : RawTree) (cfg : Config) (vote : Oracle κ)
+    (nm : NameMapper) (hm : HierarchyMapper) (nR : Nat)
+    (ids : List CellId) (cells : List κ) (order : List Nat)
+    (hdrop : cfg.dropLevel = none) (hflat : cfg.flatten = false)
+    (hwf : wfb t0 = true) (hv : VoteOK t0 vote) (hpay : PayloadOK nR t0 vote)
+    (hch : hasChoice t0 = true)
+    (hcells : cells ≠ []) (hlen : ids.length = cells.length) (hnd : ids.Nodup)
+    (hproc : 1 ≤ cfg.nProc) (hcs : 1 ≤ cfg.chunkSize)
+    (horder : order.Perm (List.range
+      (chunks cells.length (effChunk cells.length cfg.nProc cfg.chunkSize)).length)) :
+    ∃ out, mapPipeline t0 cfg vote ids cells order = .ok out ∧
+      (∃ h, Output.toH5 (toBlob t0 cfg nm hm nR out) = .ok h ∧
+        Output.ofH5 h = .ok (toBlob t0 cfg nm hm nR out)) ∧
+      ∀ taint ck, ∃ rows, Output.csvRows (toBlob t0 cfg nm hm nR out).tree taint ck
+          (toBlob t0 cfg nm hm nR out).results = .ok rows ∧
+        rows.map (·.head?) = ids.map (fun i => some (Output.Cell.str i)) := by
+  have hrun : runTree t0 cfg = .ok t0 := by simp [runTree, hdrop, hflat]
+  have hout := C01.no_error_plain t0 cfg vote ids cells order hdrop hflat hwf hv hlen hnd hproc
+    hcs horder
+  refine ⟨_, hout, ?_, ?_⟩
+  · exact (pipeline_h5_roundtrip t0 t0 cfg vote nm hm nR ids cells order hwf hrun hv hpay hch
+      hcells hlen hnd hproc hcs horder _ hout).1
+  · intro taint ck
+    obtain ⟨rows, h1, _, _, h4⟩ := pipeline_csv_rows t0 t0 cfg vote nm hm nR ids cells order hwf
+      hrun hv hpay hch hcells hlen hnd hproc hcs horder _ hout taint ck
+    exact ⟨rows, h1, h4⟩
+
+example : ∃ out, mapPipeline exTree { chunkSize := 2, nProc := 2 } (exVoteP 1) [7, 3, 9] [0, 1, 2]
+    [1, 0] = .ok out ∧ ∃ h, Output.toH5 (toBlob exTree { chunkSize := 2, nProc := 2 } none none 1 out)
+      = .ok h ∧ Output.ofH5 h = .ok (toBlob exTree { chunkSize := 2, nProc := 2 } none none 1 out) :=
+  (fun ⟨out, h1, h2, _⟩ => ⟨out, h1, h2⟩) <|
+    pipeline_serialised_plain exTree { chunkSize := 2, nProc := 2 } (exVoteP 1) none none 1
+      [7, 3, 9] [0, 1, 2] [1, 0] rfl rfl exTree_wf (exVoteP_ok _ _) (exVoteP_payload _ _)
+      (by decide) (by simp) rfl (by decide) (by decide) (by decide) (by decide)
+
+/-- flattened run: never fails (`C01.flatten_path`); the output — leaf level
+voted, every coarser level inferred, `directly_assigned = False`, no runner-up
+keys — round-trips through HDF5 and is written to CSV in query order -/
+theorem pipeline_serialised_flatten {κ} (t0 : RawTree) (cfg : Config) (vote : Oracle κ)
+    (nm : NameMapper) (hm : HierarchyMapper) (nR : Nat) (ll : Level)
+    (ids : List CellId) (cells : List κ) (order : List Nat)
+    (hdrop : cfg.dropLevel = none) (hflat : cfg.flatten = true)
+    (hleaf : t0.leafLevel = some ll)
+    (hwf : wfb t0 = true) (hv : VoteOK t0.flatten vote) (hpay : PayloadOK nR t0.flatten vote)
+    (hch : hasChoice t0.flatten = true)
+    (hcells : cells ≠ []) (hlen : ids.length = cells.length) (hnd : ids.Nodup)
+    (hproc : 1 ≤ cfg.nProc) (hcs : 1 ≤ cfg.chunkSize)
+    (horder : order.Perm (List.range
+      (chunks cells.length (effChunk cells.length cfg.nProc cfg.chunkSize)).length)) :
+    ∃ out, mapPipeline t0 cfg vote ids cells order = .ok out ∧
+      (∃ h, Output.toH5 (toBlob t0 cfg nm hm nR out) = .ok h ∧
+        Output.ofH5 h = .ok (toBlob t0 cfg nm hm nR out)) ∧
+      ∀ taint ck, ∃ rows, Output.csvRows (toBlob t0 cfg nm hm nR out).tree taint ck
+          (toBlob t0 cfg nm hm nR out).results = .ok rows ∧
+        rows.map (·.head?) = ids.map (fun i => some (Output.Cell.str i)) := by
+  have hrun : runTree t0 cfg = .ok t0.flatten := by simp [runTree, hdrop, hflat]
+  obtain ⟨out, hout, _⟩ := C01.flatten_path t0 cfg vote ll ids cells order hdrop hflat hleaf hwf hv
+    hlen hnd hproc hcs horder
+  refine ⟨out, hout, ?_, ?_⟩
+  · exact (pipeline_h5_roundtrip t0 t0.flatten cfg vote nm hm nR ids cells order hwf hrun hv hpay
+      hch hcells hlen hnd hproc hcs horder _ hout).1
+  · intro taint ck
+    obtain ⟨rows, h1, _, _, h4⟩ := pipeline_csv_rows t0 t0.flatten cfg vote nm hm nR ids cells
+      order hwf hrun hv hpay hch hcells hlen hnd hproc hcs horder _ hout taint ck
+    exact ⟨rows, h1, h4⟩
+
+example : ∃ out, mapPipeline exTree { flatten := true, chunkSize := 2, nProc := 2 } (exVoteP 2)
+    [7, 3, 9] [0, 1, 2] [1, 0] = .ok out ∧
+    ∃ h, Output.toH5 (toBlob exTree { flatten := true, chunkSize := 2, nProc := 2 } none none 2 out)
+      = .ok h :=
+  (fun ⟨out, h1, ⟨h, h2, _⟩, _⟩ => ⟨out, h1, h, h2⟩) <|
+    pipeline_serialised_flatten exTree { flatten := true, chunkSize := 2, nProc := 2 } (exVoteP 2)
+      none none 2 2 [7, 3, 9] [0, 1, 2] [1, 0] rfl rfl (by decide) exTree_wf (exVoteP_ok _ _)
+      (exVoteP_payload _ _) (by decide) (by simp) rfl (by decide) (by decide) (by decide) (by decide)
+
+/-- run with `drop_level = l` (`l` a top or middle level, `cl` the level right
+below it): never fails (`C01.drop_path`); the output — level `l` inferred from
+the assignment at `cl`, all other levels voted — round-trips through HDF5 and
+is written to CSV in query order -/
+theorem pipeline_serialised_drop {κ} (t0 t' : RawTree) (cfg : Config) (vote : Oracle κ)
+    (nm : NameMapper) (hm : HierarchyMapper) (nR : Nat)
+    (l cl : Level) (pre post : List Level)
+    (ids : List CellId) (cells : List κ) (order : List Nat)
+    (hcfg : cfg.dropLevel = some l) (hflat : cfg.flatten = false)
+    (hdrop : t0.dropLevel l = .ok t') (hs : t0.hierarchy = pre ++ l :: cl :: post)
+    (hwf : wfb t0 = true) (hv : VoteOK t' vote) (hpay : PayloadOK nR t' vote)
+    (hch : hasChoice t' = true)
+    (hcells : cells ≠ []) (hlen : ids.length = cells.length) (hnd : ids.Nodup)
+    (hproc : 1 ≤ cfg.nProc) (hcs : 1 ≤ cfg.chunkSize)
+    (horder : order.Perm (List.range
+      (chunks cells.length (effChunk cells.length cfg.nProc cfg.chunkSize)).length)) :
+    ∃ out, mapPipeline t0 cfg vote ids cells order = .ok out ∧
+      (∃ h, Output.toH5 (toBlob t0 cfg nm hm nR out) = .ok h ∧
+        Output.ofH5 h = .ok (toBlob t0 cfg nm hm nR out)) ∧
+      ∀ taint ck, ∃ rows, Output.csvRows (toBlob t0 cfg nm hm nR out).tree taint ck
+          (toBlob t0 cfg nm hm nR out).results = .ok rows ∧
+        rows.map (·.head?) = ids.map (fun i => some (Output.Cell.str i)) := by
+  have hc : l ∈ t0.hierarchy := by rw [hs]; simp
+  have hrun : runTree t0 cfg = .ok t' := by simp [runTree, hcfg, hflat, hc, hdrop]
+  obtain ⟨out, hout, _⟩ := C01.drop_path t0 t' cfg vote l cl pre post ids cells order hcfg hflat
+    hdrop hs hwf hv hlen hnd hproc hcs horder
+  refine ⟨out, hout, ?_, ?_⟩
+  · exact (pipeline_h5_roundtrip t0 t' cfg vote nm hm nR ids cells order hwf hrun hv hpay
+      hch hcells hlen hnd hproc hcs horder _ hout).1
+  · intro taint ck
+    obtain ⟨rows, h1, _, _, h4⟩ := pipeline_csv_rows t0 t' cfg vote nm hm nR ids cells
+      order hwf hrun hv hpay hch hcells hlen hnd hproc hcs horder _ hout taint ck
+    exact ⟨rows, h1, h4⟩
+
+example : ∃ out, mapPipeline exTree { dropLevel := some 1, chunkSize := 2, nProc := 2 } (exVoteP 2)
+    [7, 3, 9] [0, 1, 2] [1, 0] = .ok out ∧
+    ∃ h, Output.toH5 (toBlob exTree { dropLevel := some 1, chunkSize := 2, nProc := 2 } none none 2 out)
+      = .ok h :=
+  (fun ⟨out, h1, ⟨h, h2, _⟩, _⟩ => ⟨out, h1, h, h2⟩) <|
+    pipeline_serialised_drop exTree C01.exDropped { dropLevel := some 1, chunkSize := 2, nProc := 2 }
+      (exVoteP 2) none none 2 1 2 [0] [] [7, 3, 9] [0, 1, 2] [1, 0] rfl rfl (by rfl) rfl exTree_wf
+      (exVoteP_ok _ _) (exVoteP_payload _ _) (by decide) (by simp) rfl (by decide) (by decide)
+      (by decide) (by decide)
+
 end CTM.C15
